@@ -6,6 +6,7 @@ import ast
 import hashlib
 import operator
 
+import numpy as np
 import z3
 
 from .interp import (BoundMethod, Cls, ExtRef, Func, Infeasible, Module, PathEnd, Obj, OutsideSubset, Path, PyRaise, Sym, Val,
@@ -537,13 +538,30 @@ class Interp:
                     parts.append(v.value)
                 else:
                     x = self.eval(v.value, env)
-                    if isinstance(x, (Sym, Obj)):
+                    if isinstance(x, (Sym, Obj)) or hasattr(x, "pieces"):
                         sym.append(x)
                         parts.append("{}")
                     else:
                         parts.append(format(x, self.eval(v.format_spec, env) if v.format_spec else "") if not isinstance(x, (list, dict, tuple)) else str(x))
             if sym:
-                return self.w.uf("fstr:" + "".join(parts)[:30], sym, "val")
+                from .symstr import SStr, Tok
+
+                pieces = []
+                for v in node.values:
+                    if isinstance(v, ast.Constant):
+                        pieces.append(v.value)
+                    else:
+                        x = self.eval(v.value, env)
+                        spec = self.eval(v.format_spec, env) if v.format_spec else ""
+                        if isinstance(x, SStr):
+                            pieces.append(x)
+                        elif isinstance(x, (Sym, Obj)):
+                            pieces.append(Tok(x, spec))
+                        elif isinstance(x, (str, int, float, np.generic)):
+                            pieces.append(format(x, spec) if not isinstance(x, np.generic) else format(x.item(), spec))
+                        else:
+                            pieces.append(Tok(x, spec))
+                return SStr(pieces)
             return "".join(parts)
         if t is ast.Lambda:
             return Closure(node, env.module, env, "<lambda>")
@@ -567,27 +585,42 @@ class Interp:
         return self.eval(node, env)
 
     def comprehension(self, node, env):
-        if len(node.generators) != 1:
-            raise OutsideSubset("nested comprehension")
-        g = node.generators[0]
-        it = self.eval(g.iter, env)
-        if isinstance(it, SymRange) and not g.ifs:
-            return SymSeq(z3.If(it.n > 0, it.n, 0), self.w.uf(f"comp:{_srchash(node)}", self.read_values(node, env), "val"))
-        seq = self.concrete_iter(it)
-        if seq is None:
+        gens = node.generators
+        if len(gens) == 1:
+            it = self.eval(gens[0].iter, env)
+            if isinstance(it, SymRange) and not gens[0].ifs:
+                return SymSeq(z3.If(it.n > 0, it.n, 0), self.w.uf(f"comp:{_srchash(node)}", self.read_values(node, env), "val"))
+        out = []
+
+        def rec(k, e):
+            if k == len(gens):
+                out.append(self.eval(node.elt, e))
+                return True
+            g = gens[k]
+            it = self.eval(g.iter, e)
+            seq = self.concrete_iter(it)
+            if seq is None:
+                return False
+            for x in seq:
+                e2 = Env(e.module, parent=e)
+                self.assign_target(g.target, x, e2)
+                if all(self.truth(self.eval(c, e2)) for c in g.ifs):
+                    if not rec(k + 1, e2):
+                        return False
+            return True
+
+        if not rec(0, env):
             reads = self.read_values(node, env)
             return self.w.uf(f"comp:{_srchash(node)}", reads, "val")
-        out = []
-        for x in seq:
-            e2 = Env(env.module, parent=env)
-            self.assign_target(g.target, x, e2)
-            if all(self.truth(self.eval(c, e2)) for c in g.ifs):
-                out.append(self.eval(node.elt, e2))
         if isinstance(node, ast.SetComp):
             return set(out)
         return out
 
     def concrete_iter(self, it):
+        if hasattr(it, "z_iter"):
+            return it.z_iter(self)
+        if isinstance(it, np.ndarray):
+            return list(it)
         if isinstance(it, (list, tuple)):
             return list(it)
         if isinstance(it, range):
@@ -686,6 +719,10 @@ class Interp:
             raise OutsideSubset("arithmetic on a symbolic-length sequence")
         if isinstance(l, Vec) or isinstance(r, Vec):
             if isinstance(l, Vec) and isinstance(r, Vec):
+                if len(l) == 1 and len(r) != 1:
+                    return Vec([self.binop(op, l[0], b) for b in r])
+                if len(r) == 1 and len(l) != 1:
+                    return Vec([self.binop(op, a, r[0]) for a in l])
                 if len(l) != len(r):
                     raise PyRaise("ValueError", "shape mismatch")
                 return Vec([self.binop(op, a, b) for a, b in zip(l, r)])
@@ -797,6 +834,9 @@ class Interp:
     def getitem(self, base, idx):
         if hasattr(base, "z_getitem"):
             return base.z_getitem(self, idx)
+        if isinstance(base, np.ndarray) and not self.is_sym(idx):
+            r = base[idx]
+            return r.item() if isinstance(r, np.generic) else r
         if isinstance(base, (list, tuple, str)) and not self.is_sym(idx) and not (isinstance(idx, tuple) and self.is_sym(*idx)):
             try:
                 return base[idx]
@@ -1230,6 +1270,20 @@ class PyMethod:
         self.obj, self.name = obj, name
 
     def call(self, it, args, kwargs):
+        if isinstance(self.obj, str) and self.name == "join":
+            from .symstr import SStr, Tok
+
+            seq = it.concrete_iter(args[0])
+            if seq is None:
+                raise OutsideSubset("join of a symbolic-length sequence")
+            if all(isinstance(x, str) for x in seq):
+                return self.obj.join(seq)
+            pieces = []
+            for k, x in enumerate(seq):
+                if k:
+                    pieces.append(self.obj)
+                pieces.append(x if isinstance(x, (str, SStr)) else Tok(x))
+            return SStr(pieces)
         if any(isinstance(a, (Sym, Obj)) for a in args) and not isinstance(self.obj, (list, dict, set, SymSeq)) and not hasattr(self.obj, "_zpy"):
             return it.w.uf(f"meth.{self.name}", [self.obj] + list(args), "val")
         try:
@@ -1459,15 +1513,15 @@ _BUILTINS = {
     "float": Builtin("float", _float), "abs": Builtin("abs", _abs), "range": Builtin("range", _range),
     "hasattr": Builtin("hasattr", _hasattr), "getattr": Builtin("getattr", _getattr),
     "min": Builtin("min", _minmax("min")), "max": Builtin("max", _minmax("max")), "sum": Builtin("sum", _sum),
-    "sorted": Builtin("sorted", _generic("sorted")), "set": Builtin("set", _generic("set")),
-    "str": Builtin("str", _generic("str")), "bool": Builtin("bool", _generic("bool", "bool")),
+    "sorted": Builtin("sorted", _generic("sorted")), "set": Builtin("set", lambda it, a, k: (it.ext["set"](it, a, k) if "set" in it.ext else _generic("set")(it, a, k))),
+    "str": Builtin("str", lambda it, a, k: (str(a[0]) if isinstance(a[0], (int, float, str, np.generic)) else __import__("pycv.wp.symstr", fromlist=["SStr"]).SStr([__import__("pycv.wp.symstr", fromlist=["Tok"]).Tok(a[0])]) if isinstance(a[0], Sym) else _generic("str")(it, a, k))), "bool": Builtin("bool", _generic("bool", "bool")),
     "list": Builtin("list", _list), "tuple": Builtin("tuple", _tuple), "zip": Builtin("zip", _zip),
     "enumerate": Builtin("enumerate", _enumerate), "print": Builtin("print", _print), "dict": Builtin("dict", _generic("dict")),
     "round": Builtin("round", _generic("round")), "any": Builtin("any", _generic("any", "bool")),
     "all": Builtin("all", _generic("all", "bool")), "complex": Builtin("complex", _generic("complex")),
     "repr": Builtin("repr", _generic("repr")), "type": Builtin("type", _generic("type")),
     "id": Builtin("id", _generic("id")), "iter": Builtin("iter", _generic("iter")), "next": Builtin("next", _generic("next")),
-    "map": Builtin("map", _generic("map")), "reversed": Builtin("reversed", _generic("reversed")),
+    "map": Builtin("map", lambda it, a, k: [it.call(a[0], [x], {}) for x in it.concrete_iter(a[1])] if it.concrete_iter(a[1]) is not None else _generic("map")(it, a, k)), "reversed": Builtin("reversed", _generic("reversed")),
 }
 
 _DEFAULT_EXT = {}
